@@ -401,12 +401,12 @@ def judge(text, m, rng, shadows=True, origin="enum"):
     while fresh in text:
         fresh += "q"
     try:
-        renamed = rename_one(ref_ast, rng, fresh)
-        variant = G.fp(renamed) if renamed is not None else None
+        renamed = rename_one(ref_ast, rng, fresh, every=(origin == "directed"))
+        variants_ = [G.fp(r) for r in renamed] if renamed else []
     except Exception:
-        variant = None
-    m.ev("no-token-ignored", applicable=variant is not None)
-    if variant is not None:
+        variants_ = []
+    m.ev("no-token-ignored", applicable=bool(variants_))
+    for variant in variants_:
         with core.shadow():
             out = real_model(variant, False)
         if out[0] == "ok" and out[1] == real[1]:
@@ -415,7 +415,7 @@ def judge(text, m, rng, shadows=True, origin="enum"):
                         case={**case, "variant": variant, "add_intercept": False}, key="token-ignored")
 
 
-def rename_one(ast, rng, fresh):
+def rename_one(ast, rng, fresh, every=False):
     """The AST with ONE variable occurrence renamed to a name the text does not contain, or None when
     the formula has a `-` or a `0` at formula level (a set difference may legitimately leave an operand
     without effect) or no variable."""
@@ -449,7 +449,7 @@ def rename_one(ast, rng, fresh):
         return None
     if not spots:
         return None
-    target = rng.choice(spots)
+    targets = spots if every else [rng.choice(spots)]
 
     def rebuild(nd, path):
         if path == ("level",):
@@ -465,7 +465,23 @@ def rename_one(ast, rng, fresh):
         new[j] = rebuild(nd[j], path[1:])
         return tuple(new)
 
-    return rebuild(ast, target)
+    return [rebuild(ast, target) for target in targets]
+
+
+DIRECTED = [
+    # a level away from the response
+    "y ~ (1 | g[a])", "y ~ (x | g['a'])", "y ~ (1 | h:g[b])", "y ~ (1 | g[a] + h)", "y ~ (f[b] | g)", "y ~ (0 + f['b'] | g)", "y ~ (x:f[b] | g)",
+    "y ~ x + f['b']", "y ~ x:f[b]", "y ~ f[b]:x + (1 | g)", "y ~ np.log(x[a])", "y ~ a[b] * c", "y ~ (a + b[c]) ** 2", "y ~ a / b[c]",
+    "a[b]", "f(a, k=b[c])", "{a[b] + 1}", "y[a] ~ x", "y['a b'] ~ x + (1 | g)",
+    # a formula with its own ~ in parentheses as an operand
+    "x : (y ~ 0 + z)", "(y ~ 0 + z) : x", "x * (y ~ 0 + z)", "x / (y ~ z)", "x + (y ~ z)", "(y ~ 0 + z + w) ** 2", "(x | (y ~ g))", "((y ~ x) | g)",
+    "f((y ~ x))", "(y ~ x)", "((y ~ x + z))",
+    # group-specific terms under an operator that only looks at common terms
+    "y ~ x : (z + w + (1 | g))", "y ~ x * (z + (1 | g))", "y ~ x / (z + (a | g))", "y ~ (x | g + h + (1 | k))", "y ~ (1 | g + (1 | k))",
+    "y ~ (z + (1 | g)) : x", "y ~ (z + (1 | g)) ** 2", "y ~ ((1 | g) + z) / x", "y ~ x : (1 | g)", "y ~ (a | g) : (b | h)", "y ~ ((a | g) | h)",
+    # exponents the algebra has no meaning for
+    "y ~ (a + b) ** c", "y ~ (a + b) ** 2.5", "y ~ (a + b) ** f(c)", "y ~ (a + b) ** c:d", "y ~ a ** b",
+]
 
 
 def _printable(t):
@@ -544,6 +560,11 @@ def run_shard(i, n, tier, seed, m):
             mt = S.mutate(canon, srng)
             m.case({"text": mt, "origin": "mutant"}, canon=mt, nontrivial=True)
             judge(mt, m, srng, origin="mutant")
+    # directed: the constructs that are refused rather than interpreted, each with EVERY variable / level renamed in turn
+    for j, t in enumerate(DIRECTED):
+        if j % n == i:
+            m.case({"text": t, "origin": "directed"}, canon=t, nontrivial=True)
+            judge(t, m, srng, origin="directed")
     # hostile: deep nesting and long sums, below the recursion limit
     if i == 0:
         for depth in (5, 20, 60):
